@@ -10,7 +10,7 @@ LEVEL = "proof"
 LEAN_MODULES = ["OsmoVerif.Props.C16"]
 LEAN_MODEL_MODULES = ["OsmoVerif.Model.Codec", "OsmoVerif.Spec.Codec", "OsmoVerif.Lemmas.CodecInt",
                       "OsmoVerif.Lemmas.CodecVals", "OsmoVerif.Lemmas.CodecBits", "OsmoVerif.Lemmas.CodecRT",
-                      "OsmoVerif.Lemmas.CodecDI", "OsmoVerif.Lemmas.CodecErr"]
+                      "OsmoVerif.Lemmas.CodecDI", "OsmoVerif.Lemmas.CodecErr", "OsmoVerif.Lemmas.CodecTyped"]
 ASSUMPTIONS = [
     "theorems are about OsmoVerif.Model.Codec: a hand model of codec.py (Field/Buf/Spare/Uint family/BitFieldSet/BitField/Envelope/Envelope.F/Sequence/Sequence.F) over a first-order definition language; get_pres/get_len lambdas are restricted to the first-order family always|flag|not flag and fixed|rest|value of a field|table on a field|threshold on the remaining length",
     "model tied to /repo by differential execution: the harness builds the REAL codec objects for every generated definition and compares bytes / decoded value trees / exception classes with the compiled Lean driver (well-formed and deliberately ill-formed definitions, in-range, boundary, over-wide, truncated, extended and corrupted inputs)",
